@@ -56,6 +56,20 @@ func freshBase(fa *ssa.FieldAddr) bool {
 		return true
 	case *ssa.FieldAddr:
 		return freshBase(b)
+	case *ssa.UnOp:
+		// constructor pattern: a local variable that only ever holds objects allocated in this function
+		if l, ok := b.X.(*ssa.Alloc); ok && b.Op == token.MUL && !l.Heap {
+			n := 0
+			for _, ref := range *l.Referrers() {
+				if st, ok := ref.(*ssa.Store); ok && st.Addr == l {
+					if _, isNew := st.Val.(*ssa.Alloc); !isNew {
+						return false
+					}
+					n++
+				}
+			}
+			return n > 0
+		}
 	}
 	return false
 }
